@@ -50,6 +50,11 @@ CHECKS = {
    technique="TLA+ machine of build_sample_md (FoSampleMd.tla: ReadList / ConvOne / FailOne / WriteReadme) model-checked with TLC over an enumerated scenario universe; each scenario staged and run through the real tool; the observed event trace (announced entries, exit, README structure) validated action by action by TLC (FoSampleMdTrace.tla)",
    text="The tool is an explicit machine whose invariants (a written README has exactly one section per entry in list order with verbatim content; a failed run leaves README.md untouched; it fails iff a listed file is unreadable) are model-checked on every scenario TLC enumerates (list shapes with blank lines, titles with several/leading/no spaces, file names whose base ends in f/o/., no .fo suffix, a missing file at each position, adversarial file contents, a longer pre-existing README). Every scenario is run through the rebuilt tool and its observed events are validated against the machine's actions. Exhaustive under the bound (<= 2 entries quick, <= 3 thorough).",
    note="Trusted: the structural reader of README.md (recognises the staged contents verbatim, tolerant to spacing); `process:` lines as the announcement events; scenario universe bound."),
+ "C04": dict(
+   category="model_checking", design_ref="4.4", engine="FoBootstrap",
+   technique="TLA+ machine of the self-hosting chain (FoBootstrap.tla: Build / Transpile / Fmt / Compare over two compiler generations), model-checked on an abstract repository; the real chain is executed in a scratch copy and its event log with SHA-256 hashes is validated by TLC (FoBootstrapTrace.tla), which reports differing and uncovered files",
+   text="The harness builds fc from the working tree, runs the repository's own recipes (fc_all.sh, per-sample, the tool, README.md via the rebuilt tool), rebuilds the compiler from the regenerated files and repeats; every step is an event with content hashes. TLC validates the log against the bootstrap machine: each event must be an enabled action in order (compare only after transpile+format, compiler 2 built from exactly out[1]), every listed source must be compared in both generations, and every comparison must be equal. The quantifier (35 files x 2 generations) is finite and covered completely in both tiers.",
+   note="Thinly served by TLA+ (one concrete trace): the byte comparison is by SHA-256 in the harness, the specification contributes ordering / coverage / provenance obligations and the verdict. Trusted: Go toolchain, gofmt. samples/*.fo not in filelist.txt are outside the property (gen_noarg_funcall.go is stale on the pinned tree)."),
 }
 
 def cmd(pid, tier):
